@@ -341,6 +341,7 @@ def run_harness(c, u, expect, mode, keep, prune_interval, hists, procs, full_eve
 
     V.build_harness("c18")
     tot = {}
+    terr = []
     by_id = {h["id"]: h for h in hists}
     with cf.ThreadPoolExecutor(max_workers=procs) as ex:
         for f, rc, out in ex.map(run, jobs):
@@ -349,9 +350,7 @@ def run_harness(c, u, expect, mode, keep, prune_interval, hists, procs, full_eve
             if rc != 0 or not summ:
                 V.log(out[-3000:])
                 raise V.ToolError("c18 %s failed rc=%d on %s" % (mode, rc, f))
-            terr = [x["tool_error"] for x in lines if "tool_error" in x]
-            if terr:
-                raise V.ToolError("c18 %s: %s" % (mode, terr[:3]))
+            terr += [x["tool_error"] for x in lines if "tool_error" in x]
             for k, v in summ[0].items():
                 if isinstance(v, int):
                     tot[k] = max(tot.get(k, 0), v) if k.startswith("max") else tot.get(k, 0) + v
@@ -363,6 +362,9 @@ def run_harness(c, u, expect, mode, keep, prune_interval, hists, procs, full_eve
                                 {"kind": "history", "mode": mode, "keep": keep, "prune_interval": prune_interval,
                                  "universe": {"txs": u.txs, "genesis": u.genesis}, "hist": {"id": h["id"], "ops": h["ops"]},
                                  "mismatch": m})
+    # violations first: a tool error after a violation must never hide it
+    if terr and not c.violations:
+        raise V.ToolError("c18 %s: %s" % (mode, terr[:3]))
     return tot
 
 
@@ -406,6 +408,18 @@ def tlc_hists(cfg, simulate=None, depth=None, tag=None):
 
 def run(tier):
     c = V.Check(PID, "model_checking", tier)
+    try:
+        return _run(c, tier)
+    except V.ToolError as e:
+        # a tool error / vacuity guard after a violation must never hide it
+        if c.violations:
+            V.log("TOOL-ERROR after %d violation(s) (exit code stays 1): %s" % (len(c.violations), e))
+            c.finish()
+            return 1
+        raise
+
+
+def _run(c, tier):
     quick = tier == "quick"
     c.rule = ("cases = histories: a TLC-generated or random append/rollback walk replayed on the real Indexer, or a block tree "
               "delivered to a real node followed by the real IndexerService; after every step / quiescence the query battery is "
